@@ -1,7 +1,7 @@
 (* C10 — Assigning one element changes that element and nothing else. Statements only. *)
 From Coq Require Import ZArith List Bool Lia.
 Import ListNotations.
-From XO Require Import Slots Strides BufOps Types Format Check LayoutProofs Update UpdateProofs.
+From XO Require Import Slots Strides BufOps Types Format Check LayoutProofs Update UpdateProofs UpdateSize.
 Open Scope Z_scope.
 
 (* on the value tree: the assigned element becomes the (capacity-preserving) new value, every
@@ -18,6 +18,12 @@ Theorem C10_string_keeps_size : forall bs sz bs' sz' x, retag (VStr bs sz) (VStr
 Proof. exact retag_string_keeps_size. Qed.
 (* every accepted history: after each step the object's bytes are the documented image of the
    model's updated value, with the size fixed at creation *)
+(* an assignment the model honours -- any type, any depth, any value that takes over the capacities
+   fixed at creation -- leaves an object whose documented image has exactly the same length: the
+   extent reserved at creation never changes, so a fitting assignment has nowhere to write but inside it *)
+Theorem C10_extent_kept : forall t v p x v' img,
+  assign t v p x = Some v' -> enc t v = Some img -> exists img', enc t v' = Some img' /\ len img' = len img.
+Proof. exact assign_keeps_extent. Qed.
 Theorem C10_history_sound : forall steps t v size n, check_updates t v size n steps = None -> conforms t v size steps.
 Proof. exact check_updates_sound. Qed.
 
@@ -36,3 +42,4 @@ Print Assumptions C10_other_elements.
 Print Assumptions C10_assign_local.
 Print Assumptions C10_string_keeps_size.
 Print Assumptions C10_history_sound.
+Print Assumptions C10_extent_kept.
